@@ -65,17 +65,38 @@ theorem decode_encode_all_of_slabOK (s : Slab) (ok : SlabOK s) (n : Nat) :
   rw [normSlab_noCompact s hn, Slab.decodeAllocsG_of_SlabOK ok] at h
   exact h
 
-/-- The weaker predicates of the kind-specific theorems are covered: a map data slab without inlined
-    children (`MapDataOK`), one with inlined children but no compact map (`MapDataOKI`), an array data
-    slab with inlined children but no compact map (`ArrDataOKI`). -/
+/-- Every predicate of the kind-specific theorems is covered: a map data slab without inlined
+    children (`MapDataOK`), one with inlined children but no compact map (`MapDataOKI`), with inlined
+    children in any form under the older nesting clause `vneedI ≤ 32` (`MapDataOKC`) or under the exact
+    one `vdepth ≤ 32` (`MapDataOKX`); an array data slab with inlined children but no compact map
+    (`ArrDataOKI`), in any form (`ArrDataOKC`, `ArrDataOKX`), with wrapped elements only (`ArrDataOKW`,
+    `ArrDataOKWX`). -/
 theorem slabOKG_covers :
     (∀ m, MapDataOK m → SlabOKG (.mdata m)) ∧ (∀ m, MapDataOKI m → SlabOKG (.mdata m)) ∧
-    (∀ m, MapDataOKC m → SlabOKG (.mdata m)) ∧
+    (∀ m, MapDataOKC m → SlabOKG (.mdata m)) ∧ (∀ m, MapDataOKX m → SlabOKG (.mdata m)) ∧
     (∀ a, ArrDataOKI a → SlabOKG (.adata a)) ∧ (∀ a, ArrDataOKC a → SlabOKG (.adata a)) ∧
-    (∀ a, ArrDataOKW a → SlabOKG (.adata a)) ∧ (∀ m, MapMetaOK m → SlabOKG (.mindex m)) ∧
+    (∀ a, ArrDataOKX a → SlabOKG (.adata a)) ∧
+    (∀ a, ArrDataOKW a → SlabOKG (.adata a)) ∧ (∀ a, ArrDataOKWX a → SlabOKG (.adata a)) ∧
+    (∀ m, MapMetaOK m → SlabOKG (.mindex m)) ∧
     (∀ id x, x.RT → x.noInl → x.vneed + 1 ≤ maxNestedLevels → SlabOKG (.storableG id (.some x))) :=
-  ⟨fun _ h => h.toC, fun _ h => h.toC, fun _ h => h, fun _ h => Or.inl h.toC, fun _ h => Or.inl h,
-   fun _ h => Or.inr h, fun _ h => h, fun _ x hrt hni hv => ⟨hrt, hni, rfl, by simpa [Stor.vneed] using hv⟩⟩
+  ⟨fun _ h => h.toC.toX, fun _ h => h.toX, fun _ h => h.toX, fun _ h => h,
+   fun _ h => Or.inl h.toX, fun _ h => Or.inl h.toX, fun _ h => Or.inl h,
+   fun _ h => Or.inr h.toX, fun _ h => Or.inr h,
+   fun _ h => h, fun _ x hrt hni hv => ⟨hrt, hni, rfl, by simpa [Stor.vneed] using hv⟩⟩
+
+/-- The exact nesting clause is what `SlabOKG` asks of the three kinds with general elements. -/
+theorem slabOKG_nest (s : Slab) (ok : SlabOKG s) :
+    match s with
+    | .adata _ | .mdata _ => s.vdepth ≤ maxNestedLevels
+    | _ => True := by
+  cases s with
+  | adata a => rcases ok with ok | ok <;> exact ok.nest
+  | mdata m => exact ok.nest
+  | data _ _ => trivial
+  | index _ _ => trivial
+  | storable _ _ => trivial
+  | mindex _ => trivial
+  | storableG _ _ => trivial
 
 end Atree.C07
 
@@ -201,15 +222,16 @@ theorem exAData_okc :
   ty := fun t h => by cases h
   size := by decide
 
-theorem exAData_ok : SlabOKG exAData := Or.inl exAData_okc
+theorem exAData_ok : SlabOKG exAData := Or.inl exAData_okc.toX
 
 /-- 4b. array data slab with a wrapped element and no inlined child -/
 def exADataW : Slab :=
   .adata { id := ⟨1, 6⟩, next := SlabID.undef, ty := some (.composite 2), elems := [.val 2 1, .some (.val 3 300)] }
 
 theorem exADataW_ok : SlabOKG exADataW := by
-  refine Or.inr { rt := ?_, noInl := ⟨trivial, trivial, trivial⟩, wrapped := ⟨.some (.val 3 300), by simp, rfl⟩,
-                  nest := by decide, count := by decide, next := by decide, ty := ?_, size := by decide }
+  refine Or.inr (ArrDataOKW.toX
+    { rt := ?_, noInl := ⟨trivial, trivial, trivial⟩, wrapped := ⟨.some (.val 3 300), by simp, rfl⟩,
+      nest := by decide, count := by decide, next := by decide, ty := ?_, size := by decide })
   · simp only [rtiSts, Stor.RTI]; decide
   · intro t h; cases h; decide
 
@@ -217,7 +239,7 @@ theorem exADataW_ok : SlabOKG exADataW := by
     (`C06.exCompactSlab`) -/
 def exMData : Slab := .mdata exCompactSlab
 
-theorem exMData_ok : SlabOKG exMData where
+theorem exMData_okc : MapDataOKC exCompactSlab where
   rt := by
     refine ⟨by decide, rfl, by decide, by decide, ⟨⟨?_, exCompact1_rti, ?_⟩, ⟨?_, exCompact2_rti, ?_⟩, trivial⟩, ?_⟩
     · simp only [Stor.RTI]; decide
@@ -231,6 +253,8 @@ theorem exMData_ok : SlabOKG exMData where
   next := by decide
   extra := fun x h => by cases h; decide
   size := by decide
+
+theorem exMData_ok : SlabOKG exMData := exMData_okc.toX
 
 /-- 6. map index slab, root -/
 def exMIndex : Slab :=
